@@ -429,5 +429,5 @@ macro_rules! int_shifts {
 int_shifts!(c05_int1_shifts, 1);
 //@ name=c05_int2_shifts prop=C05,C13,C11 tier=quick profile=k64 funcs="Int::shr,Int::shr_vartime,Int::overflowing_shr,Int::overflowing_shr_vartime,Int::wrapping_shr,Int::shl,Int::overflowing_shl,Int::wrapping_shl" bound="Int<2>, all values, every u32 shift" free_bits=167
 int_shifts!(c05_int2_shifts, 2);
-//@ name=c05_int3_shifts prop=C05,C13,C11 tier=thorough profile=k64 funcs="Int::shr,Int::shr_vartime,Int::overflowing_shr,Int::overflowing_shr_vartime,Int::wrapping_shr,Int::shl,Int::overflowing_shl,Int::wrapping_shl" bound="Int<3>, all values, every u32 shift" free_bits=232
+//@ name=c05_int3_shifts prop=C05,C13,C11 tier=quick profile=k64 funcs="Int::shr,Int::shr_vartime,Int::overflowing_shr,Int::overflowing_shr_vartime,Int::wrapping_shr,Int::shl,Int::overflowing_shl,Int::wrapping_shl" bound="Int<3>, all values, every u32 shift" free_bits=232
 int_shifts!(c05_int3_shifts, 3);
